@@ -308,7 +308,9 @@ impl Memfs {
             if (!x.is_symlink() || m.follow) && x.is_dir() && !sys::revoking_mode(x.mode(), m1) && x.mode() != m1 {
                 let mut guard = vfs.write_guard();
                 if let Some(entry) = guard.get_entry_mut(x.path()) {
-                    entry.set_mode(Some(m1));
+                    if !entry.is_symlink() {
+                        entry.set_mode(Some(m1));
+                    }
                 }
             }
             Ok(())
@@ -331,7 +333,9 @@ impl Memfs {
             if (!src.is_symlink() || opts.follow) && m2 != src.mode() && m2 != 0 {
                 let mut guard = self.write_guard();
                 if let Some(entry) = guard.get_entry_mut(src.path()) {
-                    entry.set_mode(Some(m2));
+                    if !entry.is_symlink() {
+                        entry.set_mode(Some(m2));
+                    }
                 }
             }
         }
